@@ -42,6 +42,14 @@ CHECKS = {
             "trichotomy, converse, transitivity and container congruence on the specification; the implementation must return "
             "the specified truth value for each of the six relations.",
             "Trusted: TLC, BigInt, the literal renderer (own calendar arithmetic for timestamp spellings). NaN excluded.", "5/C08"),
+    "C07": ("TLA+ spec CelLiteral (character-level decoder for the 16 string/bytes styles, integer and float literal denotation "
+            "over BigInt) checked by TLC against the item-level denotation; every generated literal evaluated under both runners; "
+            "random strings / byte strings / integers encoded by the harness and judged by the spec decoder in Trace_C07",
+            "TLC enumerates sequences of body items (plain characters incl. quotes, newline, non-BMP; every escape form) in all 16 "
+            "quoting styles, and every spelling (sign, radix, leading zeros, suffix, digit case) of the int64/uint64 boundary pool "
+            "plus float spellings; the model invariant ties the character-level decoder to the denotation, and the implementation "
+            "must produce the denoted code points / octets / number (or an error for out-of-range integers).",
+            "Trusted: TLC, BigInt. Floats are compared only when the spelled decimal is exactly representable.", "5/C07"),
 }
 NOT_YET = "check not built yet in this phase (planned per DESIGN.md section 5)"
 
